@@ -91,10 +91,10 @@ def grids():
                             ((nx.complete_graph(4),), {})]
     G["shuffle_hyperedges"] = [((_H(), 1, 0.7), {}), ((_H(), 2, 1.0), {}), ((_H(), 1, 0.0), {}), ((_H2(), 2, 0.5), {})]
     G["random_layout"] = [((_H(),), {})]
-    G["pairwise_spring_layout"] = [((_H(),), {})]
-    G["barycenter_spring_layout"] = [((_H(),), {})]
-    G["weighted_barycenter_spring_layout"] = [((_H(),), {})]
-    G["bipartite_spring_layout"] = [((_H(),), {})]
+    # with and without extra options handed through to the spring solver: a call made with an option must not change
+    # what later calls without it return (the last grid entry is what the "same function, other seed" perturbation calls)
+    for lay in ("pairwise_spring_layout", "barycenter_spring_layout", "weighted_barycenter_spring_layout", "bipartite_spring_layout"):
+        G[lay] = [((_H(),), {}), ((_H(),), {"k": 0.7}), ((_H(),), {"iterations": 2, "threshold": 0.01})]
     import xgi
 
     star = xgi.Hypergraph([[0, i] for i in range(1, 8)])  # degenerate spectrum: the eigensolver restarts
